@@ -3,6 +3,7 @@ import re, copy
 from common import *
 from flowutil import *
 from dataflows import filter_rows, deduplicate, unpivot
+import dataflows as DF
 
 PROP = 'C17'
 PROPS_V = 'Props/C17.v'
@@ -117,8 +118,18 @@ def gen_cases(rng, tier):
         elif k == 2:
             pk = rng.sample(names, rng.randint(0, min(2, len(names))))
             cases.append({'kind': 'dedup', 'names': names, 'rows': rows_enc(rows), 'pk': pk})
+            if pk and rng.chance(0.4):
+                cases[-1]['pk_form'] = 'tuple'
         else:
             cases.append(gen_unpivot(rng))
+            if rng.chance(0.4):
+                cases[-1]['keys_prop'] = rng.sample(cases[-1]['names'], rng.randint(1, len(cases[-1]['names'])))
+    # systematically: a composite key given as a tuple; a 'keys' property on a kept and on an unpivoted field
+    rows = [{'a': 1, 'b': 'x', 'c1': 10}, {'a': 1, 'b': 'y', 'c1': 11}, {'a': 1, 'b': 'x', 'c1': 12}, {'a': 2, 'b': 'x', 'c1': 13}]
+    cases.append({'kind': 'dedup', 'names': ['a', 'b', 'c1'], 'rows': rows_enc(rows), 'pk': ['a', 'b'], 'pk_form': 'tuple'})
+    for kp in (['id'], ['y2019'], ['id', 'y2020']):
+        cases.append({'kind': 'unpivot', 'names': ['id', 'y2019', 'y2020'], 'rows': rows_enc([{'id': 'r', 'y2019': 1, 'y2020': 2}, {'id': 'q', 'y2019': 3, 'y2020': None}]),
+                      'specs': [{'name': r'y(\d+)', 'keys': [['year', enc(r'\1')]]}], 'regex': True, 'extra_keys': ['year'], 'value_name': 'value', 'keys_prop': kp})
     return cases
 
 
@@ -179,6 +190,9 @@ def step_of(case):
     if k == 'filter_callable':
         return [filter_rows(condition=py_pexpr(case['cond']))]
     if k == 'dedup':
+        if case.get('pk_form') == 'tuple' and case.get('pk'):
+            # the key handed to set_primary_key as a tuple (it reaches the descriptor as it is)
+            return [DF.set_primary_key(tuple(case['pk'])), deduplicate()]
         return [deduplicate()]
     if k == 'unpivot':
         specs = [{'name': sp['name'], 'keys': dict((a, dec(b)) for a, b in sp['keys'])} for sp in case['specs']]
@@ -194,6 +208,11 @@ def run_impl(case):
     if case['kind'] == 'filter_old':
         # the schema's missing-value tokens do not enter into the comparison: conditions compare Python values
         res['missingValues'] = ['', 'a'] if len(case['rows']) % 2 else None
+    if case.get('keys_prop'):
+        # field descriptors carrying a custom property that happens to be called 'keys' (any property name is legal)
+        for f in res['fields']:
+            if f['name'] in case['keys_prop']:
+                f['keys'] = 'lookup keys of the source system'
     resources = [res]
     if case.get('names2'):
         resources.append(mk_resource('t2', case['names2'], rows_dec(case['rows2']), types=dict((n, 'any') for n in case['names2'])))
